@@ -81,6 +81,10 @@ def lty(t):
         return t[1]
     if isinstance(t, tuple) and t[0] == 'Raw':
         return t[1]
+    if isinstance(t, tuple) and t[0] == 'ObjM':
+        return '(%s M)' % t[1]
+    if t == ('Text',):
+        return '(List Int)'
     if isinstance(t, tuple) and t[0] == 'Opt':
         return '(Option %s)' % lty(t[1])
     return t
@@ -196,6 +200,11 @@ class FnTranslator:
                     if self.pm:
                         return f'(← get).{e.attr}', self.unit.fields[e.attr]
                     return f'self.{e.attr}', self.unit.fields[e.attr]
+                if isinstance(t, tuple) and t[0] == 'ObjM':
+                    fields = self.tr.class_fields(t[1])
+                    if e.attr not in fields:
+                        raise Untranslatable(f'field {e.attr} of {t[1]}')
+                    return f'{base}.{e.attr}', fields[e.attr]
                 if t == MSG and e.attr == 'time':
                     return f'{base}.time', INT
                 if t == MSG and e.attr in ('is_realtime', 'is_meta'):
@@ -344,6 +353,11 @@ class FnTranslator:
                 return acc, BOOL
             op = ' && ' if isinstance(e.op, ast.And) else ' || '
             return '(' + op.join(parts) + ')', BOOL
+        if isinstance(e, ast.Compare) and len(e.ops) == 1 and isinstance(e.left, ast.Attribute) and e.left.attr == 'type' \
+                and isinstance(e.left.value, ast.Name) and self.env.get(e.left.value.id, (None, None))[1] == EXTMSG \
+                and getattr(self.unit, 'ext', False) and isinstance(e.ops[0], ast.Eq) \
+                and isinstance(e.comparators[0], ast.Constant) and e.comparators[0].value == 'sysex':
+            return f'(ext.isSysex {self.env[e.left.value.id][0]})', BOOL
         if isinstance(e, ast.Compare) and len(e.ops) == 1 and isinstance(e.left, ast.Attribute) and e.left.attr == 'type' \
                 and isinstance(e.left.value, ast.Name) and self.env.get(e.left.value.id, (None, None))[1] == MSG:
             r = e.comparators[0]
@@ -513,6 +527,9 @@ class FnTranslator:
                 return f'{self.env[e.args[0].value.id][0]}.timeIsInt', BOOL
             if n == 'bytearray' and not e.args and not e.keywords:
                 return '[]', LINT
+            if n == 'Parser' and not e.args and not e.keywords and getattr(self.unit, 'ext', False):
+                self.tr.class_fields('Parser')      # the class must be among the translated ones
+                return '({ messages := [], _tok := {} } : Parser M)', ('ObjM', 'Parser')
             if n == 'isinstance' and len(e.args) == 2:
                 a, t = self.expr(e.args[0])
                 k = e.args[1]
@@ -571,6 +588,25 @@ class FnTranslator:
             if f.attr not in meths:
                 raise Untranslatable(f'method {f.attr} of the opaque object {f.value.id}')
             return f'(← {f.value.id}_{f.attr})', meths[f.attr]       # what the call does is a parameter of the unit
+        if isinstance(f, ast.Attribute) and f.attr == 'read' and not e.args and not e.keywords and isinstance(f.value, ast.Name) \
+                and f.value.id in getattr(self, 'opened', {}):
+            return self.opened[f.value.id], LINT          # the whole contents of the file that was opened for reading
+        if isinstance(f, ast.Attribute) and f.attr == 'decode' and len(e.args) == 1 and isinstance(e.args[0], ast.Constant) \
+                and e.args[0].value == 'latin1' and not e.keywords:
+            a, t = self.expr(f.value)
+            if t == LINT:
+                return a, ('Text',)                        # latin1: byte values are the code points
+        if isinstance(f, ast.Attribute) and f.attr == 'sub' and isinstance(f.value, ast.Name) and f.value.id == 're' and len(e.args) == 3 \
+                and isinstance(e.args[0], ast.Constant) and e.args[0].value == r'\s' and isinstance(e.args[1], ast.Constant) \
+                and e.args[1].value == ' ' and not e.keywords:
+            a, t = self.expr(e.args[2])
+            if t == ('Text',):
+                return f'(subWs {a})', ('Text',)
+        if isinstance(f, ast.Attribute) and f.attr == 'fromhex' and isinstance(f.value, ast.Name) and f.value.id == 'bytearray' \
+                and len(e.args) == 1 and not e.keywords:
+            a, t = self.expr(e.args[0])
+            if t == ('Text',):
+                return f'(← fromhex {a})', LINT
         if isinstance(f, ast.Attribute):
             if f.attr == 'get' and len(e.args) == 1 and not e.keywords:
                 base, bt = self.expr(f.value)
@@ -827,6 +863,10 @@ class FnTranslator:
                 inner = f'{{ {base} with {tgt.attr} := {val} }}'
                 self.assign_target(tgt.value, inner, t, ind, out)
                 return
+        if isinstance(tgt, ast.Attribute) and isinstance(tgt.value, ast.Name) and tgt.value.id in self.env \
+                and isinstance(self.env[tgt.value.id][1], tuple) and self.env[tgt.value.id][1][0] == 'ObjM' and tgt.value.id in self.muts:
+            out.append(f'{ind}{tgt.value.id} := {{ {tgt.value.id} with {tgt.attr} := {val} }}')
+            return
         if isinstance(tgt, ast.Attribute) and isinstance(tgt.value, ast.Name) and tgt.value.id in self.env:
             base, t = self.env[tgt.value.id]
             if t == 'Self':
@@ -939,6 +979,24 @@ class FnTranslator:
             pn = f'popped__{self.npop}'
             pre = self.stmt(ast.Assign(targets=[ast.Name(id=pn, ctx=ast.Store())], value=s.value), ind)
             return pre + self.stmt(ast.Return(value=ast.Name(id=pn, ctx=ast.Load())), ind)
+        if isinstance(s, ast.Return) and isinstance(s.value, ast.ListComp) and len(s.value.generators) == 1 \
+                and isinstance(s.value.generators[0].target, ast.Name):
+            g = s.value.generators[0]
+            try:
+                _a, it_t = self.expr(g.iter)
+            except Untranslatable:
+                it_t = None
+            if isinstance(it_t, tuple) and it_t[0] in ('Obj', 'ObjM'):
+                # [e for x in OBJ if c] where OBJ's class has a generator __iter__:  acc = []; for x in OBJ: if c: acc.append(e)
+                acc = 'acc__'
+                body = ast.Expr(value=ast.Call(func=ast.Attribute(value=ast.Name(id=acc, ctx=ast.Load()), attr='append', ctx=ast.Load()),
+                                               args=[s.value.elt], keywords=[]))
+                for cnd in reversed(g.ifs):
+                    body = ast.If(test=cnd, body=[body], orelse=[])
+                prog = [ast.Assign(targets=[ast.Name(id=acc, ctx=ast.Store())], value=ast.List(elts=[], ctx=ast.Load())),
+                        ast.For(target=g.target, iter=g.iter, body=[body], orelse=[]),
+                        ast.Return(value=ast.Name(id=acc, ctx=ast.Load()))]
+                return self.block([ast.fix_missing_locations(x) for x in prog], ind)
         if isinstance(s, ast.Return) and self.pm:
             if getattr(self, 'is_gen', False):
                 return [f'{ind}return out__']
@@ -1041,6 +1099,17 @@ class FnTranslator:
         if isinstance(s, ast.With) and self.pm and len(s.items) == 1 and isinstance(s.items[0].context_expr, ast.Attribute) \
                 and s.items[0].context_expr.attr == '_lock' and s.items[0].optional_vars is None:
             # the translation is the single-thread reading of the method: holding the (re-entrant) lock is no step
+            return self.block(s.body, ind)
+        if isinstance(s, ast.With) and len(s.items) == 1 and isinstance(s.items[0].context_expr, ast.Call) \
+                and isinstance(s.items[0].context_expr.func, ast.Name) and s.items[0].context_expr.func.id in ('open', 'open_') \
+                and isinstance(s.items[0].optional_vars, ast.Name) and getattr(self.unit, 'file_param', None):
+            c = s.items[0].context_expr
+            mode = c.args[1].value if len(c.args) > 1 and isinstance(c.args[1], ast.Constant) else None
+            if mode != 'rb':
+                raise Untranslatable('open mode ' + repr(mode))
+            # the file that is opened for reading: its contents are a parameter of the unit
+            self.opened = dict(getattr(self, 'opened', {}))
+            self.opened[s.items[0].optional_vars.id] = self.unit.file_param
             return self.block(s.body, ind)
         if isinstance(s, ast.With):
             if len(s.items) == 1 and isinstance(s.items[0].context_expr, ast.Call) and \
@@ -1165,6 +1234,15 @@ class FnTranslator:
                 if u.ret in (None, NONE):
                     return [f'{ind}self ← {u.lean_name} {"ext " if getattr(u, "ext", False) else ""}self {args}']
                 raise Untranslatable('method with a value used as statement')
+            # obj.method(args) where obj is a local object of a translated class
+            if isinstance(f.value, ast.Name) and isinstance(self.env.get(f.value.id, (None, None))[1], tuple) \
+                    and self.env[f.value.id][1][0] == 'ObjM':
+                ot = self.env[f.value.id][1]
+                u = next((x for x in self.tr.units if x.cls == ot[1] and x.name == f.attr), None)
+                if u is None or u.ret not in (None, NONE):
+                    raise Untranslatable(f'call of {ot[1]}.{f.attr}')
+                args = ' '.join(self.expr(a)[0] for a in e.args)
+                return [f'{ind}{f.value.id} ← {u.lean_name} ext {f.value.id} {args}']
             # self.obj.method(args) where self.obj is an object of a translated class
             if isinstance(f.value, ast.Attribute):
                 try:
@@ -1235,6 +1313,13 @@ class FnTranslator:
         names = []
         for s in ast.walk(ast.Module(body=stmts, type_ignores=[])):
             tg = None
+            if isinstance(s, ast.Assign) and isinstance(s.value, ast.Call) and isinstance(s.value.func, ast.Attribute) \
+                    and s.value.func.attr == 'popleft':
+                base = s.value.func.value
+                while isinstance(base, ast.Attribute):
+                    base = base.value
+                if isinstance(base, ast.Name) and base.id != 'self' and base.id not in names:
+                    names.append(base.id)          # q.popleft() changes the object that holds q
             if isinstance(s, ast.Assign):
                 tg = s.targets[0]
                 if isinstance(s.value, ast.Call) and isinstance(s.value.func, ast.Name) and s.value.func.id == 'read_byte' \
@@ -1258,7 +1343,7 @@ class FnTranslator:
             ob, ot = self.expr(s.iter)
         except Untranslatable:
             return None
-        cls = self.unit.cls if ot == 'Self' else (ot[1] if isinstance(ot, tuple) and ot[0] == 'Obj' else None)
+        cls = self.unit.cls if ot == 'Self' else (ot[1] if isinstance(ot, tuple) and ot[0] in ('Obj', 'ObjM') else None)
         if cls is None:
             return None
         file = next((u.file for u in self.tr.units if u.cls == cls), None)
@@ -1523,6 +1608,10 @@ class FnTranslator:
             for en, et in getattr(u, 'extra', []):
                 params.append(f'({en} : {et})')
                 self.env[en] = (en, ('Raw', et))
+        if u.cls is None:
+            for en, et in getattr(u, 'extra', []):
+                params.append(f'({en} : {et})')
+                self.env[en] = (en, ('Raw', et))
         decl = dict(u.params)
         ndefaults = len(fn.args.defaults)
         required = pnames[:len(pnames) - ndefaults] if ndefaults else pnames
@@ -1530,6 +1619,8 @@ class FnTranslator:
             if p in getattr(u, 'consts', {}):
                 continue
             if p not in decl:
+                if p in getattr(u, 'untyped_params', ()):
+                    continue
                 if p in required:
                     raise Untranslatable(f'parameter {p} has no declared type')
                 continue        # optional parameter left at its default: must not be used
@@ -1768,8 +1859,8 @@ class Translator:
 
     GROUPS = {'mido/messages/encode.py': 'Codec', 'mido/messages/decode.py': 'Codec', 'mido/messages/checks.py': 'Codec',
               'mido/tokenizer.py': 'Tok', 'mido/midifiles/meta.py': 'MetaNum', 'mido/midifiles/tracks.py': 'Tracks',
-              'mido/midifiles/midifiles.py': 'FileIO', 'mido/parser.py': 'Parser', 'mido/ports.py': 'Ports'}
-    DEPS = {'Codec': [], 'Msg': ['Codec'], 'Tok': [], 'Parser': ['Tok'], 'Ports': [], 'Charset': [], 'MetaNum': [], 'Tracks': [], 'FileIO': ['MetaNum', 'Tracks']}
+              'mido/midifiles/midifiles.py': 'FileIO', 'mido/parser.py': 'Parser', 'mido/ports.py': 'Ports', 'mido/syx.py': 'Syx'}
+    DEPS = {'Codec': [], 'Msg': ['Codec'], 'Tok': [], 'Parser': ['Tok'], 'Ports': [], 'Charset': [], 'Syx': ['Tok', 'Parser'], 'MetaNum': [], 'Tracks': [], 'FileIO': ['MetaNum', 'Tracks']}
 
     def run_groups(self):
         """one generated file per group of source files, so that a function that cannot be translated (or an edit that
@@ -1924,6 +2015,13 @@ def units():
         u.hasattr = {'autoreset': True}
         u.attr_consts = {'is_input': True, 'is_output': True}
         U.append(u)
+    u = Unit('mido/syx.py', 'read_syx_file', [], LIST(EXTMSG), fuel={'loop1': 'parser.messages.length + 1'})
+    u.ext, u.file_param, u.consts = True, 'file_bytes', {}
+    u.extra = [('file_bytes', '(List Int)')]
+    u.local_types = {'acc__': LIST(EXTMSG)}
+    u.untyped_params = ('filename',)
+    u.hoist = True
+    U.append(u)
     M = 'mido/midifiles/meta.py'
     U.append(Unit(M, 'encode_variable_int', [('value', INT)], LINT, fuel={'loop1': 'value.toNat'}))
     U.append(Unit(M, 'decode_variable_int', [('value', LINT)], INT))
